@@ -60,6 +60,17 @@ CHECKS = {
         "Trusted: analytic derivatives of cosines, numpy FFT for the independent Poisson residual. Bounds on N and the L lattice.",
         "DESIGN.md §4 C05",
     ),
+    "C06": (
+        "bounded exhaustive exploration of the program space: all valid compositions of {filter_jit, vmap, rollout(n), repeat(n)} up to depth 3 per stepper, against an eager reference interpreter; full product of batched constructor parameters",
+        "For every catalogue stepper all valid wrapper compositions (depth <= 2 for all entries and <= 3 for six families in quick, <= 3 for all in thorough; "
+        "n in {0,2}, batch 3) are executed on the real code and compared with a reference interpreter that evaluates the same program eagerly, one "
+        "state at a time (this contains vmap(rollout) = rollout(vmap) with exchanged axes); perturbing one batch member must leave the others "
+        "bit-identical. Every float-typed constructor parameter of every class (incl. dt, domain_extent, tuple entries) is batched with "
+        "eqx.filter_vmap and traced under filter_jit and compared with steppers built one at a time; wrapped steppers (Repeated/Forced) are batched "
+        "both under filter_vmap and by stacking the leaves of eagerly built wrappers.",
+        "Trusted: the reference interpreter (Python loops over the real stepper). Tolerance 1e-10 relative for XLA re-association.",
+        "DESIGN.md §4 C06",
+    ),
     "C08": (
         "bounded exhaustive exploration: full symmetry-group enumeration (all N^D shifts, all D! axis permutations, all embedding axes) x state lattice, differential oracle on the real code",
         "For every catalogue entry (every public stepper class and flag variant) x order 0-4 x D x odd/even N the stepper is applied to ALL grid "
